@@ -111,3 +111,125 @@ func checkTableAndCounterTogether(c *Ctx, rule, ownerRel, ownerName string) {
 	c.Count("id-keyed tables of "+owner+": "+strings.Join(ps, ","), len(pairs))
 	c.MinInstances(rule, n, 1)
 }
+
+// checkIDsNeverReused — "an id that names a stored entry is never handed out twice".
+// For the struct `owner`: a map field with an integer key whose entries are also deleted
+// (`delete(s.M, id)`) is an id-keyed table with holes. A store `s.M[k] = …` creates a new id; the
+// id must come from a counter field of the same object that only ever grows (every store to it
+// outside a constructor is `K = K + positive constant`). An id computed from the table's current
+// population (len) or from a counter that is reset or decremented repeats as soon as an older
+// entry is released while a newer one is alive: the new entry replaces the live one (a later
+// restore of that id returns another state, or "does not exist").
+func checkIDsNeverReused(c *Ctx, rule, ownerRel, ownerName string) {
+	p := c.P
+	owner := ownerRel + "." + ownerName
+	type upd struct {
+		fn  *ssa.Function
+		mu  *ssa.MapUpdate
+		fld string
+	}
+	var updates []upd
+	deleted := map[string]bool{}
+	for _, fn := range p.Subjects() {
+		if len(fn.Blocks) == 0 || !IsProd(fn) {
+			continue
+		}
+		for _, b := range blocksDeep(fn) {
+			for _, in := range b.Instrs {
+				switch x := in.(type) {
+				case *ssa.MapUpdate:
+					mt := T(x.Map)
+					if mt.Op != "field" || mt.Owner != owner {
+						continue
+					}
+					if m, ok := x.Map.Type().Underlying().(*types.Map); !ok || !isIntegerType(m.Key()) {
+						continue
+					}
+					updates = append(updates, upd{fn, x, mt.Sym})
+				case *ssa.Call:
+					if CalleeName(x.Common()) == "builtin:delete" && len(x.Common().Args) == 2 {
+						mt := T(x.Common().Args[0])
+						if mt.Op == "field" && mt.Owner == owner {
+							deleted[mt.Sym] = true
+						}
+					}
+				}
+			}
+		}
+	}
+	// counters: fields of owner whose every store outside a constructor adds a positive constant
+	monotone := func(field string) (bool, string) {
+		seen := false
+		for _, fn := range p.Subjects() {
+			if len(fn.Blocks) == 0 || !IsProd(fn) {
+				continue
+			}
+			for _, b := range blocksDeep(fn) {
+				for _, in := range b.Instrs {
+					st, ok := in.(*ssa.Store)
+					if !ok {
+						continue
+					}
+					fa, ok := st.Addr.(*ssa.FieldAddr)
+					if !ok {
+						continue
+					}
+					o, s := ownerOfFieldBase(fa.X.Type())
+					if o != owner || s == nil || fieldNameOf(s.Field(fa.Field)) != field {
+						continue
+					}
+					if _, fresh := fa.X.(*ssa.Alloc); fresh {
+						continue // the constructor's initial value
+					}
+					seen = true
+					bo, ok := st.Val.(*ssa.BinOp)
+					if !ok || bo.Op.String() != "+" {
+						return false, "assigned " + T(st.Val).String() + " in " + FuncKey(fn)
+					}
+					cst, isC := bo.Y.(*ssa.Const)
+					ld, isLd := bo.X.(*ssa.UnOp)
+					if !isC || !isLd || cst.Value == nil || cst.Int64() <= 0 {
+						return false, "assigned " + T(st.Val).String() + " in " + FuncKey(fn)
+					}
+					lfa, ok := ld.X.(*ssa.FieldAddr)
+					if !ok || lfa.Field != fa.Field || lfa.X != fa.X {
+						return false, "assigned " + T(st.Val).String() + " in " + FuncKey(fn)
+					}
+				}
+			}
+		}
+		if !seen {
+			return false, "never advanced"
+		}
+		return true, ""
+	}
+	n := 0
+	for _, u := range updates {
+		if !deleted[u.fld] {
+			continue
+		}
+		n++
+		mt := T(u.mu.Map)
+		base := ""
+		if len(mt.Args) == 1 {
+			base = mt.Args[0].String()
+		}
+		counter, why := "", "the key "+T(u.mu.Key).String()+" is not read from a counter field of the same object"
+		T(u.mu.Key).Walk(func(t *Term) bool {
+			if t.Op == "field" && t.Owner == owner && len(t.Args) == 1 && t.Args[0].String() == base && t.Sym != u.fld {
+				counter = t.Sym
+			}
+			return true
+		})
+		ok := false
+		if counter != "" {
+			ok, why = monotone(counter)
+			if !ok {
+				why = "counter " + counter + " does not only grow: " + why
+			}
+		}
+		c.Require(rule, FuncKey(u.fn)+": new entry of "+ownerName+"."+u.fld, p.InstrPos(u.mu),
+			"the id under which a new entry is stored in a table whose entries are also deleted comes from a counter of the same object that only grows (an id is never handed out twice while an older holder may still restore it)", ok, why)
+	}
+	c.MinInstances(rule, n, 1)
+}
